@@ -22,7 +22,19 @@ harness
   (`events_in_sliver_triangles`, `skipped_near_discontinuity`),
 * exercises the metamorphic laws of the property on the implementation (routes agree,
   proportional to eta and Q, joint rescale, batch independence, repeated calls) and
-  fingerprints every input array, the LUT arrays/files and `EXTERNAL_LUTS`.
+  fingerprints every input array, the LUT arrays/files and `EXTERNAL_LUTS`,
+* hands over `(array, meta)` tables in every numeric dtype that can hold them (float64,
+  float32; int32/int64/uint16 for integer-valued tables) and memory layout (C, F, strided view,
+  read-only); the table is what survives the conversion; float32 results must match the table
+  scaled/normalised in float32 as the code does (1e-9) or converted to float64 first (64 ulp of
+  float32); integer tables may be rejected with ValueError/TypeError,
+* runs call HISTORIES in one process over a mutable LUT environment: files rewritten in place
+  (same path, other table, mtime bumped), identifiers registered / de-registered /
+  re-registered to other files, calls by str/pathlib path, identifier, built-in name and tuple
+  interleaved; every call is checked against the table that is current at call time (shadow
+  environment in the harness, mirrored by the Lean `Env`/`stepOp` model), unresolvable
+  references must raise ValueError whatever was loaded before.  Failing histories are shrunk
+  over the op list, every execution under fresh file names and identifiers.
 """
 import copy
 import hashlib
@@ -49,6 +61,11 @@ RULE = ("call cases = (LUT: the 3 built-in files of the tree under test + genera
         "small LUTs by full scan of all triangles; tolerance 1e-9 relative / 1e-12 absolute, "
         "widened by 16ulp*cond*spread in sliver triangles; NaN-ness not compared within 1e-9 of "
         "the hull or within 64ulp*cond of a sliver's edge); laws and fingerprints per case. "
+        "Tuple mode: dtype float64/float32 (+int32/int64/uint16 for integer-valued tables) x "
+        "layout C/F/strided/read-only. Histories: 10-22 ops over 3 paths and 2 identifiers "
+        "(write/rewrite, register with and without explicit identifier, register of a taken or "
+        "built-in identifier, de-register, re-register to another file, calls by path / "
+        "identifier / built-in / tuple), each call against the table current at call time. "
         "distinct = distinct (LUT, set-up, viscosity source, events) cases with at least one "
         "finite result and a non-identity scaling or pixelation correction.")
 TRUSTED_BASE = [
@@ -63,7 +80,10 @@ TRUSTED_BASE = [
 ASSUMPTIONS = ["channel widths > 0, LUT flow rate / viscosity non-zero, LUT maxima > 0 (Pos)",
                "copy=True (default) and extrapolate=False (default); the spline extrapolation "
                "option is excluded from the property"]
-NOT_PROVED = ["that T is the Delaunay triangulation of the table and covers its convex hull "
+NOT_PROVED = ["that dclab keeps no state between calls beyond files and EXTERNAL_LUTS (the Lean Env "
+              "model has none by construction - history_current; stale_cache_witness shows what a "
+              "memoising loader breaks; the implementation is tied to it by the histories)",
+              "that T is the Delaunay triangulation of the table and covers its convex hull "
               "(qhull trusted; containment / separation re-verified per event)",
               "the transcendental parts of pixelation correction and viscosity models "
               "(correspondence with an independent re-implementation only)",
@@ -183,7 +203,38 @@ def write_lut_file(path, rows, meta, featx):
     pathlib.Path(path).write_text("\n".join(lines) + "\n")
 
 
-def gen_user_lut(rng, ident):
+def gen_int_lut(rng, ident):
+    """a table whose entries are small integers (representable in every numeric dtype); the
+    'deformation' axis is then not physical, which the interpolation does not care about"""
+    featx = rng.choice(["area_um", "volume"])
+    nx, ny = rng.randint(3, 6), rng.randint(3, 5)
+    rows = []
+    for i in range(nx):
+        for j in range(ny):
+            if rng.random() < 0.1 and len(rows) > 4:
+                continue
+            # jittered grid on a fine integer lattice: no four points on a common circle
+            # (a Delaunay triangulation of cocircular points is not unique, and which diagonal
+            # qhull picks then depends on rounding – the interpolant would be ambiguous)
+            rows.append([float(40 + 600 * i + rng.randint(0, 399)),
+                         float(50 + 9000 * j + rng.randint(0, 5999)),
+                         float(rng.randint(1, 40))])
+    seen, out = set(), []
+    for r in rows:
+        if (r[0], r[1]) not in seen:
+            seen.add((r[0], r[1]))
+            out.append(r)
+    meta = {"channel_width": rng.choice([15.0, 20.0, 30.0]), "channel_width_unit": "um",
+            "flow_rate": rng.choice([0.04, 0.08, 0.16]), "flow_rate_unit": "uL/s",
+            "fluid_viscosity": rng.choice([15.0, 6.0, 1.0]), "fluid_viscosity_unit": "mPa s",
+            "identifier": ident, "method": "verif"}
+    return {"kind": "user", "rows": out, "meta": meta, "featx": featx, "ident": ident,
+            "integer": True}
+
+
+def gen_user_lut(rng, ident, integer=False):
+    if integer:
+        return gen_int_lut(rng, ident)
     featx = rng.choice(["area_um", "volume", "area_um"])
     nx, ny = rng.randint(3, 8), rng.randint(3, 8)
     x0, x1 = (rng.uniform(20, 60), rng.uniform(200, 400)) if featx == "area_um" else \
@@ -220,15 +271,18 @@ def gen_user_lut(rng, ident):
 class Lut:
     """a LUT as the harness sees it (independent parse), with lazily computed geometry"""
 
-    def __init__(self, spec, workdir):
+    def __init__(self, spec, workdir, path=None):
         self.spec = spec
+        self.native = np.dtype("float64")     # dtype of the array handed over in tuple mode
+        self._variants = {}
         if spec["kind"] == "builtin":
             self.path = common.REPO / EMOD_DIR / f"lut_{spec['name']}.txt"
             self.rows, self.meta, feats = parse_lut_file(self.path)
             self.featx = feats[0]
             self.key = spec["name"]
         else:
-            self.path = pathlib.Path(workdir) / f"lut_{spec['ident']}.txt"
+            self.path = pathlib.Path(path) if path is not None else \
+                pathlib.Path(workdir) / f"lut_{spec['ident']}.txt"
             write_lut_file(self.path, spec["rows"], spec["meta"], spec["featx"])
             self.rows, self.meta, feats = parse_lut_file(self.path)
             self.featx = spec["featx"]
@@ -248,6 +302,22 @@ class Lut:
             from scipy.spatial import Delaunay
             self._tri0 = Delaunay(self.rows[:, :2] / self.rows[:, :2].max(0))
         return self._tri0
+
+    def variant(self, dtype):
+        """the table a caller describes by handing over `rows.astype(dtype)`: same file and
+        metadata, rows = the values that survive the conversion"""
+        dt = np.dtype(dtype)
+        if dt == np.dtype("float64"):
+            return self
+        if dt.str not in self._variants:
+            v = copy.copy(self)
+            v.rows = np.array(self.rows.astype(dt), dtype=float)
+            v.native = dt
+            v.key = f"{self.key}@{dt.name}"
+            v._tri0 = None
+            v._variants = {}
+            self._variants[dt.str] = v
+        return self._variants[dt.str]
 
     def meta_tuple(self):
         m = copy.deepcopy(self.meta)
@@ -356,15 +426,28 @@ def gen_events(rng, lut, L, px, n):
 
 
 def gen_case(rng, lut, n_ev, mode=None):
+    if mode is None:
+        mode = "ident" if lut.spec["kind"] == "builtin" else \
+            rng.choice(["path", "pathlib", "ident", "tuple"])
+    extra = {}
+    if mode == "tuple":
+        # the caller's array: any numeric dtype that can hold the table, any memory layout
+        dts = DTYPES_ALL if lut.spec.get("integer") else DTYPES_FLOAT
+        extra = {"dtype": rng.choice(dts + ["float32"]), "layout": rng.choice(LAYOUTS)}
+        lut = lut.variant(extra["dtype"])
     L, Q, px = gen_setup(rng, lut)
     n = max(3, n_ev + rng.randint(-n_ev // 3, n_ev // 3))
     medium, model, temp = gen_visc(rng, n)
     xs, ds, cats = gen_events(rng, lut, L, px, n)
-    if mode is None:
-        mode = "ident" if lut.spec["kind"] == "builtin" else \
-            rng.choice(["path", "pathlib", "ident", "tuple"])
-    return {"lut": lut.spec, "mode": mode, "L": L, "Q": Q, "px": px, "medium": medium,
+    case = {"lut": lut.spec, "mode": mode, "L": L, "Q": Q, "px": px, "medium": medium,
             "model": model, "temp": temp, "x": xs, "d": ds, "cats": cats}
+    case.update(extra)
+    return case
+
+
+def effective(lut, case):
+    """the table the call describes (tuple mode: what survives the array's dtype)"""
+    return lut.variant(case.get("dtype", "float64"))
 
 
 # ------------------------------------------------------------------------------------------
@@ -374,27 +457,58 @@ class Registry:
     done = {}
 
 
-def lut_arg(lut, mode):
+DTYPES_FLOAT = ["float64", "float32"]
+DTYPES_ALL = ["float64", "float32", "int32", "int64", "uint16"]
+LAYOUTS = ["C", "F", "strided", "readonly"]
+
+
+def make_array(lut, layout):
+    """the array handed over in tuple mode: dtype `lut.native`, given memory layout; returns
+    (array, base array or None)"""
+    arr = np.array(lut.rows, dtype=lut.native)
+    base = None
+    if layout == "F":
+        arr = np.asfortranarray(arr)
+    elif layout == "strided":
+        base = np.full((2 * len(arr) + 1, 7), 77, dtype=lut.native)
+        view = base[1::2, 1::2][:len(arr), :3]
+        view[...] = arr
+        arr = view
+    elif layout == "readonly":
+        arr.setflags(write=False)
+    return arr, base
+
+
+def lut_arg(lut, case):
+    """(lut_data argument, (array, meta, base) for tuple mode or None)"""
     from dclab.features.emodulus import load
-    if lut.spec["kind"] == "builtin":
+    ref = case.get("ref")
+    if ref is not None:          # history calls name their LUT explicitly
+        if ref["kind"] == "path":
+            return (pathlib.Path(ref["path"]) if ref.get("pathlib") else str(ref["path"])), None
+        if ref["kind"] in ("ident", "builtin"):
+            return ref["name"], None
+    elif lut.spec["kind"] == "builtin":
         return lut.spec["name"], None
-    if mode == "path":
+    mode = case["mode"]
+    if ref is None and mode == "path":
         return str(lut.path), None
-    if mode == "pathlib":
+    if ref is None and mode == "pathlib":
         return lut.path, None
-    if mode == "ident":
-        if Registry.done.get(lut.key) != str(lut.path):
-            load.EXTERNAL_LUTS.pop(lut.key, None)
+    if ref is None and mode == "ident":
+        base_key = lut.spec["ident"]
+        if Registry.done.get(base_key) != str(lut.path):
+            load.EXTERNAL_LUTS.pop(base_key, None)
             # identifier from the file's metadata, or given explicitly
             if len(Registry.done) % 2:
                 load.register_lut(lut.path)
             else:
-                load.register_lut(lut.path, identifier=lut.key)
-            Registry.done[lut.key] = str(lut.path)
-        return lut.key, None
-    arr = np.array(lut.rows, copy=True)
+                load.register_lut(lut.path, identifier=base_key)
+            Registry.done[base_key] = str(lut.path)
+        return base_key, None
+    arr, base = make_array(lut, case.get("layout", "C"))
     meta = lut.meta_tuple()
-    return (arr, meta), (arr, meta)
+    return (arr, meta), (arr, meta, base)
 
 
 def fp(a):
@@ -420,14 +534,14 @@ def call_impl(lut, case, xs=None, ds=None, temp="case", medium="case", model="ca
     x_arr = np.array(xs, dtype=float)
     d_arr = np.array(ds, dtype=float)
     t_arg = np.array(temp, dtype=float) if isinstance(temp, (list, np.ndarray)) else temp
-    larg, tup = lut_arg(lut, case["mode"])
+    larg, tup = lut_arg(lut, case)
     kw = {"deform": d_arr, "medium": medium, "channel_width": case["L"] if L is None else L,
           "flow_rate": case["Q"] if Q is None else Q, "px_um": case["px"] if px is None else px,
           "temperature": t_arg, "lut_data": larg, "visc_model": model}
     kw["area_um" if lut.featx == "area_um" else "volume"] = x_arr
     before = (fp(x_arr), fp(d_arr), fp(t_arg) if isinstance(t_arg, np.ndarray) else None,
-              fp(tup[0]) if tup else None, copy.deepcopy(tup[1]) if tup else None,
-              dict(load.EXTERNAL_LUTS))
+              (fp(tup[0]), fp(tup[2]), tup[0].flags.writeable, tup[0].dtype.str) if tup else None,
+              copy.deepcopy(tup[1]) if tup else None, dict(load.EXTERNAL_LUTS))
     try:
         with warnings.catch_warnings():
             warnings.simplefilter("ignore")
@@ -442,7 +556,8 @@ def call_impl(lut, case, xs=None, ds=None, temp="case", medium="case", model="ca
             mutations.append("the caller's deform array was modified")
         if isinstance(t_arg, np.ndarray) and fp(t_arg) != before[2]:
             mutations.append("the caller's temperature array was modified")
-        if tup and fp(tup[0]) != before[3]:
+        if tup and (fp(tup[0]), fp(tup[2]), tup[0].flags.writeable,
+                    tup[0].dtype.str) != before[3]:
             mutations.append("the caller's LUT array was modified")
         if tup and tup[1] != before[4]:
             mutations.append("the caller's LUT metadata was modified")
@@ -476,19 +591,24 @@ class Geo:
     """float replica of the documented scaling + normalisation for one (LUT, route, L, Q, eta)
     and qhull's triangulation of it"""
 
-    def __init__(self, lut, route, L, Q, eta_global):
+    def __init__(self, lut, route, L, Q, eta_global, force64=False):
         from scipy.spatial import Delaunay
-        t = np.array(lut.rows, copy=True)
+        # the implementation works on `np.array(lut, copy=True)`, i.e. in the dtype of the
+        # caller's array (files: float64); integer arrays cannot be scaled in place at all
+        native = lut.native if (lut.native.kind == "f" and not force64) else np.dtype(float)
+        t = np.array(lut.rows, dtype=native)
         self.lut, self.route = lut, route
         if route == "A":
             if lut.L0 != L:
                 t[:, 0] *= (L / lut.L0) ** lut.k
             if lut.Q0 != Q or lut.L0 != L or lut.eta0 != eta_global:
                 t[:, 2] *= (Q / lut.Q0) * (eta_global / lut.eta0) * (lut.L0 / L) ** 3
-        self.nx = t[:, 0].max()
-        t[:, 0] /= self.nx
-        self.ny = t[:, 1].max()
-        t[:, 1] /= self.ny
+        nx = t[:, 0].max()
+        t[:, 0] /= nx
+        ny = t[:, 1].max()
+        t[:, 1] /= ny
+        self.nx, self.ny = float(nx), float(ny)
+        t = np.array(t, dtype=float)
         self.t = t
         self.tri = Delaunay(t[:, :2])
         hull = self.tri.convex_hull
@@ -606,19 +726,33 @@ def frac_to_float(s):
     return float(int(s))
 
 
-def prepare(lut, case):
+def dtype_tolerances(lut, force64=False):
+    """(relative tolerance, factor on the conditioning allowances, hull band) for comparing
+    the implementation with exact arithmetic on the table: the implementation scales and
+    normalises the table in the dtype of the caller's array"""
+    if lut.native.kind != "f" or lut.native == np.dtype(float):
+        return RTOL, 1.0, BAND
+    eps = float(np.finfo(lut.native).eps)
+    return max(RTOL, 64 * eps), eps / 2.2e-16, max(BAND, 64 * eps)
+
+
+def prepare(lut, case, force64=False):
     """everything the comparison needs for one case: route, etas, deltas, per-event float
     oracle, near-hull flags, and the Lean query lines"""
     route, eta = case_visc(lut, case)
     n = len(case["x"])
-    info = {"route": route, "eta": eta, "n": n}
+    rtol_x, unc_x, band_x = dtype_tolerances(lut)
+    info = {"route": route, "eta": eta, "n": n, "rtol": RTOL, "rtol_exact": rtol_x,
+            "native": lut.native.name}
     if route is None:
         return info
     etas = eta if route == "B" else [eta] * n
     L, Q, px = case["L"], case["Q"], case["px"]
-    geo = Geo(lut, route, L, Q, eta if route == "A" else None)
+    geo = Geo(lut, route, L, Q, eta if route == "A" else None, force64=force64)
     fEs = [(Q / lut.Q0) * (e / lut.eta0) * (lut.L0 / L) ** 3 for e in etas]
     deltas, expect, near, lines, kinds, slack = [], [], [], [], [], []
+    near_x, slack_x = [], []          # the same allowances for the comparison with exact
+    #                                   arithmetic on the table (wider for float32 arrays)
     for i in range(n):
         x, d = case["x"][i], case["d"][i]
         if not (math.isfinite(x) and math.isfinite(d)):
@@ -628,6 +762,8 @@ def prepare(lut, case):
             lines.append(None)
             kinds.append("nonfinite")
             slack.append(0.0)
+            near_x.append(False)
+            slack_x.append(0.0)
             continue
         dl = my_delta(lut.featx, x, px) if px else 0.0
         if not math.isfinite(dl):       # exp overflow for absurd abscissae: deform - inf
@@ -637,6 +773,8 @@ def prepare(lut, case):
             lines.append(None)
             kinds.append("nonfinite")
             slack.append(0.0)
+            near_x.append(False)
+            slack_x.append(0.0)
             continue
         deltas.append(dl)
         dc = d - dl
@@ -659,6 +797,8 @@ def prepare(lut, case):
         if s >= 0 and geo.minbary_one(s, q) < geo.loc_uncertainty(cands):
             uncertain = True
         near.append(abs(dist) < BAND or uncertain)
+        near_x.append(abs(dist) < band_x or uncertain or
+                      (s >= 0 and geo.minbary_one(s, q) < unc_x * geo.loc_uncertainty(cands)))
         head = f"q {rat(x)} {rat(d)} {rat(dl)} {rat(etas[i])} "
         if s >= 0:
             val = geo.exact_value(s, q)
@@ -667,6 +807,7 @@ def prepare(lut, case):
         else:
             expect.append(float("nan"))
             slack.append(0.0)
+        slack_x.append(slack[-1] * unc_x)
         if lut.small:
             lines.append(head + "full")
             kinds.append("full")
@@ -694,20 +835,20 @@ def prepare(lut, case):
             lines.append(head + f"out {rat(a[0])} {rat(a[1])} {rat(b[0])} {rat(b[1])}")
             kinds.append("out")
     info.update(geo=geo, etas=etas, deltas=deltas, expect=expect, near=near, lines=lines,
-                kinds=kinds, slack=slack)
+                kinds=kinds, slack=slack, near_x=near_x, slack_x=slack_x)
     return info
 
 
-def close(a, b, slack=0.0):
+def close(a, b, slack=0.0, rtol=RTOL):
     if math.isnan(a) or math.isnan(b):
         return math.isnan(a) and math.isnan(b)
     if math.isinf(a) or math.isinf(b):
         return a == b
-    return abs(a - b) <= max(ATOL, RTOL * max(abs(a), abs(b)), slack)
+    return abs(a - b) <= max(ATOL, rtol * max(abs(a), abs(b)), slack)
 
 
-def compare_float(case, info, out):
-    """property oracle in floats vs implementation; list of (event index, text)"""
+def compare_float(case, info, out, lut=None):
+    """property oracle vs implementation; list of (event index, text)"""
     bad = []
     if info["route"] is None:
         if not (isinstance(out, str) and out == info["eta"]):
@@ -716,17 +857,35 @@ def compare_float(case, info, out):
                             f"{out if isinstance(out, str) else 'a result'}"))
         return bad
     if isinstance(out, str):
+        if lut is not None and lut.native.kind in "iu" and out in ("err:value", "err:type"):
+            # integer tables cannot be scaled/normalised in place; rejecting them is not a
+            # wrong answer ("Cannot correct integer `area_um` in-place!")
+            return []
         return [(-1, f"get_emodulus raised {out}")]
     if out.shape != (info["n"],):
         return [(-1, f"result shape {out.shape} for {info['n']} events")]
-    for i in range(info["n"]):
-        e, o = info["expect"][i], float(out[i])
-        if info["near"][i] and (math.isnan(e) != math.isnan(o)):
-            continue
-        if not close(e, o, info["slack"][i]):
-            bad.append((i, f"event {i} ({case['cats'][i]}; x={case['x'][i]!r}, "
-                           f"deform={case['d'][i]!r}): get_emodulus={o!r}, scaled linear "
-                           f"interpolation of the LUT={e!r}"))
+
+    def cmp(inf, near, slack, rtol):
+        res = []
+        for i in range(inf["n"]):
+            e, o = inf["expect"][i], float(out[i])
+            if near[i] and (math.isnan(e) != math.isnan(o)):
+                continue
+            if not close(e, o, slack[i], rtol):
+                res.append((i, f"event {i} ({case['cats'][i]}; x={case['x'][i]!r}, "
+                               f"deform={case['d'][i]!r}): get_emodulus={o!r}, scaled linear "
+                               f"interpolation of the LUT={e!r}"
+                               + (f" (LUT array dtype {inf['native']})"
+                                  if inf["native"] != "float64" else "")))
+        return res
+    # the table scaled and normalised in the dtype of the caller's array, as the code does
+    bad = cmp(info, info["near"], info["slack"], RTOL)
+    if bad and lut is not None and lut.native.kind == "f" and lut.native != np.dtype(float):
+        # an implementation may just as well convert the table to float64 first: accept that
+        # reading too, at the resolution of the array's dtype
+        inf2 = prepare(lut, case, force64=True)
+        if not cmp(inf2, inf2["near_x"], inf2["slack_x"], inf2["rtol_exact"]):
+            return []
     return bad
 
 
@@ -750,8 +909,9 @@ def laws(rng, lut, case, info, base, which=None):
     n = len(case["x"])
     if isinstance(base, str):
         return bad
-    near = near_mask(info)
-    slack, expect = info.get("slack", []), info.get("expect", [])
+    near = np.array(info.get("near_x", []), dtype=bool)
+    slack, expect = info.get("slack_x", []), info.get("expect", [])
+    rtol = info.get("rtol_exact", RTOL)
 
     def same(a, b, idx=None):
         """equal within the tolerance; for events in the hull band / within the location
@@ -774,11 +934,12 @@ def laws(rng, lut, case, info, base, which=None):
             if j < len(slack) and math.isfinite(expect[j]) and expect[j] != 0:
                 rs = 2 * slack[j] / abs(expect[j])     # two roundings, one per call
             if not close(u, v, rs * max(abs(u), abs(v)) if math.isfinite(u) and math.isfinite(v)
-                         else 0.0):
+                         else 0.0, rtol):
                 return False
         return True
 
-    todo = which or ["repeat", "perm", "split", "routes", "linear", "rescale", "single"]
+    todo = which if which is not None else ["repeat", "perm", "split", "routes", "linear",
+                                           "rescale", "single"]
     if "repeat" in todo:
         again = call_impl(lut, case)
         if not (isinstance(again, np.ndarray) and np.array_equal(again, base, equal_nan=True)):
@@ -898,7 +1059,7 @@ def check_loading(ctx, luts):
                                                                  "tuple"]
         for mode in modes:
             try:
-                larg, _ = lut_arg(lut, mode)
+                larg, _ = lut_arg(lut, {"mode": mode})
                 arr, meta = load.load_lut(larg)
                 ok = (np.array_equal(arr, lut.rows)
                       and meta["column features"] == [lut.featx, "deform", "emodulus"]
@@ -956,28 +1117,37 @@ def shrink_events(lut, case, fails):
 def float_fails(lut, case):
     info = prepare(lut, case)
     out = call_impl(lut, case)
-    return bool(compare_float(case, info, out))
+    return bool(compare_float(case, info, out, lut))
 
 
-def run_case_python(ctx, lut, case, law_names):
-    """implementation vs float oracle, laws, fingerprints.  Returns (info, out, failed)"""
+def run_case_python(ctx, lut, case, law_names, replay=None):
+    """implementation vs float oracle, laws, fingerprints.  Returns (info, out, failed).
+    `replay`: recorded instead of the case (histories; no event shrinking then)"""
     info = prepare(lut, case)
     muts = []
     out = call_impl(lut, case, mutations=muts)
     failed = False
     if muts:
         ctx.violation("spec", "get_emodulus: " + "; ".join(sorted(set(muts))),
-                      {"case": case, "why": "mutation"})
+                      replay or {"case": case, "why": "mutation"})
         failed = True
-    bad = compare_float(case, info, out)
-    if bad:
+    bad = compare_float(case, info, out, lut)
+    if bad and replay is not None:
+        ctx.violation("spec", "get_emodulus: " + bad[0][1], replay)
+        failed = True
+    elif bad:
         small = shrink_events(lut, case, lambda c: float_fails(lut, c))
-        b2 = compare_float(small, prepare(lut, small), call_impl(lut, small)) or bad
+        b2 = compare_float(small, prepare(lut, small), call_impl(lut, small), lut) or bad
         ctx.violation("spec", "get_emodulus: " + b2[0][1], {"case": small, "why": "value"})
         failed = True
     else:
         lb = laws(ctx.rng, lut, case, info, out, law_names)
         for name, text in lb:
+            if replay is not None:
+                ctx.violation("spec", f"get_emodulus violates '{name}': {text}", replay)
+                failed = True
+                continue
+
             def still(c, name=name):
                 o = call_impl(lut, c)
                 return bool(laws(random.Random(1), lut, c, prepare(lut, c), o, [name]))
@@ -988,10 +1158,324 @@ def run_case_python(ctx, lut, case, law_names):
     return info, out, failed
 
 
+# ------------------------------------------------------------------------------------------
+# call histories over a mutable LUT environment
+class Quiet:
+    """stand-in for ctx while shrinking / replaying a history"""
+
+    def __init__(self, rng, workdir):
+        self.rng, self.workdir, self.violations = rng, workdir, []
+
+    def violation(self, kind, what, replay):
+        self.violations.append({"kind": kind, "what": what, "replay": replay})
+
+    def stat(self, *a, **k):
+        pass
+
+    def case(self, *a, **k):
+        pass
+
+
+def gen_history(rng, hid, seed, n_ops):
+    """ops over 3 paths and 2 identifiers: rewrite a file in place, register / de-register /
+    re-register an identifier, call by path / identifier / built-in name / tuple.  The events
+    of a call are placed relative to the table that is current when the call is generated."""
+    idn = [f"verif-h{seed}-{hid}-i{k}" for k in range(2)]
+    files, reg = {}, {}        # shadow: path index -> spec, ident index -> path index
+    ops, nspec = [], 0
+
+    def new_spec():
+        nonlocal nspec
+        nspec += 1
+        # the metadata identifier of every file is identifier 0 (used by register_lut(path))
+        sp = gen_user_lut(rng, idn[0], integer=rng.random() < 0.15)
+        sp["token"] = nspec
+        return sp
+
+    def add_call(ref, lutspec):
+        case = None
+        if lutspec is not None:
+            tmp = Lut(lutspec, HIST_TMP[0]) if lutspec["kind"] == "user" else BUILTIN_LUTS[
+                lutspec["name"]]
+            mode = "tuple" if ref["kind"] == "tuple" else "path"
+            case = gen_case(rng, tmp, 10 if lutspec["kind"] == "user" else 24, mode)
+            case["mode"] = {"path": "path", "ident": "ident", "builtin": "ident",
+                            "tuple": "tuple"}[ref["kind"]]
+        ops.append({"op": "call", "ref": ref, "case": case})
+
+    called_p, called_i = set(), set()
+
+    def call_path(p):
+        add_call({"kind": "path", "p": p, "pathlib": rng.random() < 0.5}, files.get(p))
+        called_p.add(p)
+
+    def call_ident(i):
+        add_call({"kind": "ident", "i": i}, files.get(reg.get(i)))
+        called_i.add(i)
+
+    while len(ops) < n_ops:
+        r = rng.random()
+        if not files or r < 0.2:
+            # (re)write a file, preferably one that has been used already (same path, new table)
+            p = rng.choice(sorted(called_p)) if called_p and rng.random() < 0.7 \
+                else rng.randrange(3)
+            files[p] = new_spec()
+            ops.append({"op": "write", "path": p, "spec": files[p]})
+            if rng.random() < 0.8:
+                via = [i for i in reg if reg[i] == p]
+                if via and rng.random() < 0.5:
+                    call_ident(rng.choice(via))
+                else:
+                    call_path(p)
+        elif r < 0.30 or (not reg and r < 0.6):
+            free = [i for i in range(2) if i not in reg]
+            i = rng.choice(free) if free and rng.random() < 0.8 else rng.randrange(2)
+            p = rng.choice(sorted(files))
+            explicit = i == 1 or rng.random() < 0.6
+            ops.append({"op": "register", "ident": i, "path": p, "explicit": explicit})
+            if i not in reg:
+                reg[i] = p
+        elif r < 0.33:
+            ops.append({"op": "register", "ident": rng.choice(BUILTIN), "path":
+                        rng.choice(sorted(files)), "explicit": True})
+        elif r < 0.38:
+            i = rng.randrange(2)
+            ops.append({"op": "deregister", "ident": i})
+            reg.pop(i, None)
+        elif r < 0.50 and reg and len(files) > 1:
+            # re-register an identifier (preferably a used one) to another file
+            i = rng.choice(sorted(called_i & set(reg)) or sorted(reg))
+            others = [p for p in sorted(files) if p != reg[i]]
+            p = rng.choice(others)
+            ops.append({"op": "deregister", "ident": i})
+            ops.append({"op": "register", "ident": i, "path": p, "explicit": True})
+            reg[i] = p
+            if rng.random() < 0.85:
+                call_ident(i)
+        else:
+            k = rng.random()
+            if k < 0.38:
+                call_path(rng.choice(sorted(files)) if rng.random() < 0.9 else rng.randrange(3))
+            elif k < 0.75:
+                call_ident(rng.choice(sorted(reg)) if reg and rng.random() < 0.88
+                           else rng.randrange(2))
+            elif k < 0.87:
+                nm = rng.choice(BUILTIN)
+                add_call({"kind": "builtin", "name": nm}, {"kind": "builtin", "name": nm})
+            else:
+                p = rng.choice(sorted(files))
+                add_call({"kind": "tuple", "p": p}, files[p])
+    return {"hid": hid, "seed": seed, "ops": ops}
+
+
+HIST_TMP = [None]
+BUILTIN_LUTS = {}
+EXEC_COUNT = [0]
+
+
+def well_formed(hist):
+    """register only files that exist (the generator guarantees it, the shrinker must keep it)"""
+    written = set()
+    for op in hist["ops"]:
+        if op["op"] == "write":
+            written.add(op["path"])
+        elif op["op"] == "register" and op["path"] not in written:
+            return False
+    return True
+
+
+def exec_history(ctx, hist, laws_on=True):
+    """run the history on the real code and on the shadow environment.  Returns
+    (entries for the exact model, env lines, number of calls that came after a change of what
+    their reference points to)"""
+    common.import_dclab()
+    from dclab.features import emodulus as em
+    from dclab.features.emodulus import load
+    hid, seed = hist["hid"], hist["seed"]
+    wd = pathlib.Path(ctx.workdir)
+    # fresh names for every execution: the shrinker re-executes (parts of) a history in this
+    # process, and what an earlier execution left behind must not be visible to this one
+    EXEC_COUNT[0] += 1
+    tag = f"{seed}-{hid}-x{EXEC_COUNT[0]}"
+    paths = [wd / f"hist-{tag}-p{k}.txt" for k in range(3)]
+    idn = [f"verif-h{tag}-i{k}" for k in range(2)]
+    files, reg, used = {}, {}, {}      # shadow; used: reference -> token seen at last call
+    entries, env, after_change = [], [("env reset 3", "ok")], 0
+    clock = [1_700_000_000 + 1000 * hid]
+    for pth in paths:                  # clean slate (the shrinker re-executes histories)
+        pth.unlink(missing_ok=True)
+    for nm in idn:
+        load.EXTERNAL_LUTS.pop(nm, None)
+
+    def fail(what, k):
+        ctx.violation("spec", what, {"history": hist, "op": k, "why": "history"})
+
+    try:
+        for k, op in enumerate(hist["ops"]):
+            if op["op"] == "write":
+                spec = dict(op["spec"], meta=dict(op["spec"]["meta"], identifier=idn[0]),
+                            ident=idn[0])
+                lut = Lut(spec, wd, path=paths[op["path"]])
+                clock[0] += 2
+                import os
+                os.utime(paths[op["path"]], (clock[0], clock[0]))
+                files[op["path"]] = lut
+                env.append((f"env write {op['path']} {op['spec']['token']}", "ok"))
+                ctx.stat("hist_write" + ("_rewrite_of_used_path" if ("p", op["path"]) in used
+                                         else ""))
+            elif op["op"] == "register":
+                builtin = isinstance(op["ident"], str)
+                name = op["ident"] if builtin else idn[op["ident"]]
+                exp = "err:value" if (builtin or op["ident"] in reg) else "ok"
+                try:
+                    if op["explicit"]:
+                        load.register_lut(paths[op["path"]], identifier=name)
+                    else:
+                        load.register_lut(paths[op["path"]])
+                    got = "ok"
+                except Exception as e:  # noqa
+                    got = err_of(e)
+                if exp == "ok":
+                    reg[op["ident"]] = op["path"]
+                env.append((f"env reg {BUILTIN.index(name) if builtin else 10 + op['ident']} "
+                            f"{op['path']}", exp))
+                ctx.stat("hist_register_" + exp)
+                if got != exp:
+                    fail(f"register_lut({name!r}) gave {got}, expected {exp}", k)
+                    return entries, env, after_change
+            elif op["op"] == "deregister":
+                load.EXTERNAL_LUTS.pop(idn[op["ident"]], None)
+                reg.pop(op["ident"], None)
+                env.append((f"env dereg {10 + op['ident']}", "ok"))
+                ctx.stat("hist_deregister")
+            else:
+                ref = op["ref"]
+                if ref["kind"] == "path":
+                    cur = files.get(ref["p"])
+                    r = {"kind": "path", "path": str(paths[ref["p"]]), "pathlib": ref["pathlib"]}
+                    env.append((f"env load path {ref['p']}",
+                                str(cur.spec["token"]) if cur else "err:value"))
+                    ukey = ("p", ref["p"])
+                elif ref["kind"] == "ident":
+                    cur = files.get(reg.get(ref["i"]))
+                    r = {"kind": "ident", "name": idn[ref["i"]]}
+                    env.append((f"env load id {10 + ref['i']}",
+                                str(cur.spec["token"]) if cur else "err:value"))
+                    ukey = ("i", ref["i"])
+                elif ref["kind"] == "builtin":
+                    cur = BUILTIN_LUTS[ref["name"]]
+                    r = {"kind": "builtin", "name": ref["name"]}
+                    env.append((f"env load id {BUILTIN.index(ref['name'])}",
+                                str(1000 + BUILTIN.index(ref["name"]))))
+                    ukey = ("b", ref["name"])
+                else:
+                    cur, r, ukey = files.get(ref["p"]), None, None
+                ctx.stat("hist_call_" + ref["kind"])
+                case = op["case"]
+                if cur is None or case is None:
+                    # nothing there (any more): ValueError, whatever was loaded before
+                    if cur is None and r is not None:
+                        try:
+                            with warnings.catch_warnings():
+                                warnings.simplefilter("ignore")
+                                em.get_emodulus(deform=np.array([0.05]), area_um=np.array([100.]),
+                                                medium=5.0, temperature=None, visc_model=None,
+                                                lut_data=(pathlib.Path(r["path"])
+                                                          if r.get("pathlib") else
+                                                          r.get("path", r.get("name"))))
+                            got = "a result"
+                        except Exception as e:  # noqa
+                            got = err_of(e)
+                        ctx.stat("hist_call_unresolvable")
+                        if got != "err:value":
+                            fail(f"get_emodulus with lut_data that does not exist (any more) "
+                                 f"({ref}) gave {got} instead of ValueError", k)
+                            return entries, env, after_change
+                    continue
+                tok = cur.spec.get("token", cur.key)
+                if ukey is not None:
+                    if ukey in used and used[ukey] != tok:
+                        after_change += 1
+                        ctx.stat("hist_call_after_change")
+                    used[ukey] = tok
+                # the generated events may have been placed for another table (the shadow of
+                # the generator and of the execution agree unless ops were removed by shrinking)
+                c = dict(case, ref=r, lut=cur.spec)
+                if c["mode"] != "tuple":
+                    c.pop("dtype", None)
+                    c.pop("layout", None)
+                lut_eff = effective(cur, c)
+                n0 = len(ctx.violations)
+                info, out, failed = run_case_python(
+                    ctx, lut_eff, c, LAW_SETS[k % len(LAW_SETS)][:1] if laws_on else [],
+                    replay={"history": hist, "op": k, "why": "history"})
+                if failed:
+                    for v in ctx.violations[n0:]:
+                        v["what"] = f"history op {k} ({ref['kind']}): " + v["what"]
+                    return entries, env, after_change
+                entries.append((lut_eff, c, (info, out, failed)))
+    finally:
+        for nm in idn:
+            load.EXTERNAL_LUTS.pop(nm, None)
+    return entries, env, after_change
+
+
+def history_fails(ctx, hist):
+    if not well_formed(hist):
+        return False
+    q = Quiet(random.Random(1), ctx.workdir)
+    try:
+        exec_history(q, hist, laws_on=True)
+    except Exception:  # noqa
+        return False
+    return bool(q.violations)
+
+
+def run_histories(ctx, n_hist):
+    HIST_TMP[0] = pathlib.Path(ctx.workdir) / "histgen"
+    HIST_TMP[0].mkdir(exist_ok=True)
+    if not BUILTIN_LUTS:
+        for nm in BUILTIN:
+            BUILTIN_LUTS[nm] = Lut({"kind": "builtin", "name": nm}, ctx.workdir)
+    hists = []
+    corpus = common.VERIF / "corpus" / "C05"
+    if corpus.exists():
+        for p in sorted(corpus.glob("*.json")):
+            c = json.loads(p.read_text())
+            if "history" in c:
+                hists.append(c["history"])
+    for h in range(n_hist):
+        hists.append(gen_history(ctx.rng, h, ctx.seed, ctx.rng.randint(10, 22)))
+    entries, env_lines = [], []
+    for hist in hists:
+        n0 = len(ctx.violations)
+        e, env, after = exec_history(ctx, hist)
+        ctx.stat("histories")
+        ctx.stat("hist_ops", len(hist["ops"]))
+        if len(ctx.violations) > n0:
+            # shrink the op list (events stay as generated)
+            ops = common.ddmin(hist["ops"], lambda o: history_fails(ctx, dict(hist, ops=o)),
+                               max_tests=40)
+            small = dict(hist, ops=ops)
+            q = Quiet(random.Random(1), ctx.workdir)
+            try:
+                exec_history(q, small)
+            except Exception:  # noqa
+                q.violations = []
+            if q.violations:
+                del ctx.violations[n0:]
+                ctx.violations.extend(q.violations)
+            continue
+        entries += e
+        env_lines += env
+    return entries, env_lines
+
+
 def make_luts(ctx, n_user):
     luts = [Lut({"kind": "builtin", "name": nm}, ctx.workdir) for nm in BUILTIN]
     for j in range(n_user):
-        luts.append(Lut(gen_user_lut(ctx.rng, f"verif-{ctx.seed}-{j}"), ctx.workdir))
+        luts.append(Lut(gen_user_lut(ctx.rng, f"verif-{ctx.seed}-{j}", integer=(j % 4 == 3)),
+                        ctx.workdir))
     return luts
 
 
@@ -1029,7 +1513,9 @@ def _run(ctx):
     if corpus.exists():
         for p in sorted(corpus.glob("*.json")):
             c = json.loads(p.read_text())
-            cases.append((Lut(c["lut"], ctx.workdir), c))
+            if "history" in c:
+                continue          # histories are replayed by run_histories
+            cases.append((effective(Lut(c["lut"], ctx.workdir), c), c, None))
     for lut in luts:
         if lut.spec["kind"] == "builtin":
             ncase, nev = nn(7, 80), (110 if len(lut.rows) > 5000 else 90)
@@ -1038,16 +1524,28 @@ def _run(ctx):
         modes = ["path", "pathlib", "ident", "tuple"]
         for j in range(ncase):
             mode = None if lut.spec["kind"] == "builtin" else modes[j % 4]
-            cases.append((lut, gen_case(ctx.rng, lut, nev, mode)))
+            case = gen_case(ctx.rng, lut, nev, mode)
+            cases.append((effective(lut, case), case, None))
+    # call histories over a mutable LUT environment (executed now, in order)
+    hist_cases, env_lines = run_histories(ctx, nn(10, 80))
+    cases += hist_cases
     # implementation + float oracle + laws
     results = []
     lean_lines, spans = [], []
     cur_lut = None
     any_failed = False
-    for ci, (lut, case) in enumerate(cases):
-        info, out, failed = run_case_python(ctx, lut, case, LAW_SETS[ci % len(LAW_SETS)])
-        any_failed |= failed
-        results.append((info, out, failed))
+    for ci, (lut, case, pre) in enumerate(cases):
+        if pre is not None:
+            info, out, failed = pre
+            any_failed |= failed
+            results.append(pre)
+        else:
+            info, out, failed = run_case_python(ctx, lut, case, LAW_SETS[ci % len(LAW_SETS)])
+            any_failed |= failed
+            results.append((info, out, failed))
+        if case["mode"] == "tuple":
+            ctx.stat(f"tuple_dtype={case.get('dtype', 'float64')}")
+            ctx.stat(f"tuple_layout={case.get('layout', 'C')}")
         finite = isinstance(out, np.ndarray) and bool(np.isfinite(out).any())
         nontriv = finite and (case["L"] != lut.L0 or bool(case["px"]) or info["route"] == "B")
         ctx.case(case_key(case), nontrivial=nontriv,
@@ -1082,7 +1580,8 @@ def _run(ctx):
                     1 for i in range(info["n"]) if info["near"][i]
                     and math.isnan(info["expect"][i]) != math.isnan(float(out[i])))))
         # model lines
-        if ctx.lean_ok and info["route"] is not None and not failed:
+        if ctx.lean_ok and info["route"] is not None and not failed \
+                and isinstance(out, np.ndarray):
             start = len(lean_lines)
             if cur_lut is not lut:
                 lean_lines += lut_lines(lut)
@@ -1118,12 +1617,19 @@ def _run(ctx):
     # ---- model ----
     import time
     t0 = time.time()
+    env_start = len(lean_lines)
+    lean_lines += [ln for ln, _exp in env_lines]
     ans = ctx.lean("C05", ["selftest-noop"] + lean_lines)[1:]
     ctx.stat("model_lines", len(lean_lines))
     ctx.stat("model_seconds", int(round(time.time() - t0)))
     mirror_bad = []
+    for k, (ln, exp) in enumerate(env_lines):
+        ctx.stat("model_env_ops")
+        if exp is not None and ans[env_start + k] != exp:
+            mirror_bad.append((0, -1, f"LUT environment model: '{ln}' answered "
+                                      f"'{ans[env_start + k]}', the harness's shadow '{exp}'"))
     for (ci, start, pre, qpos, bpos) in spans:
-        lut, case = cases[ci]
+        lut, case = cases[ci][0], cases[ci][1]
         info, out, _ = results[ci]
         # maxima reported by the model at `endlut`
         for k in range(start, pre):
@@ -1140,9 +1646,9 @@ def _run(ctx):
             if a in ("notin", "notsep"):
                 # float point location and exact arithmetic disagree: only legitimate within
                 # rounding distance of a triangle edge / the hull
-                if info["near"][i] or kind == "out":
+                if info["near_x"][i] or kind == "out":
                     ctx.stat("model_undecided_near_hull")
-                    if not info["near"][i]:
+                    if not info["near_x"][i]:
                         mirror_bad.append((ci, i, f"no separating hull edge for event {i}"))
                     continue
                 ctx.stat("model_undecided_edge")
@@ -1151,9 +1657,9 @@ def _run(ctx):
                 mirror_bad.append((ci, i, f"driver rejected '{lean_lines[pos][:80]}'"))
                 continue
             m = float("nan") if a == "nan" else frac_to_float(a)
-            if info["near"][i] and (math.isnan(m) != math.isnan(o)):
+            if info["near_x"][i] and (math.isnan(m) != math.isnan(o)):
                 continue
-            if not close(m, o, info["slack"][i]):
+            if not close(m, o, info["slack_x"][i], info["rtol_exact"]):
                 mirror_bad.append((ci, i, f"event {i} ({case['cats'][i]}): get_emodulus={o!r}, "
                                           f"exact model={m!r}"))
         if bpos is not None:
@@ -1174,7 +1680,8 @@ def _run(ctx):
             ctx.violation("mirror", f"get_emodulus differs from the Lean model in "
                                     f"{len(mirror_bad)} events, first: {text}",
                           {"correspondence": "Drive/C05.lean vs get_emodulus",
-                           "case": cases[ci][1], "event": i})
+                           "case": {k: v for k, v in cases[ci][1].items() if k != "ref"},
+                           "event": i})
 
 
 def extended_search(ctx, luts):
@@ -1204,15 +1711,28 @@ def replay(ctx, data):
             n0 = len(ctx.violations)
             check_loading(ctx, [lut])
             return len(ctx.violations) > n0
+        if "history" in rp:
+            HIST_TMP[0] = pathlib.Path(ctx.workdir) / "histgen"
+            HIST_TMP[0].mkdir(exist_ok=True)
+            for nm in BUILTIN:
+                BUILTIN_LUTS.setdefault(nm, Lut({"kind": "builtin", "name": nm}, ctx.workdir))
+            q = Quiet(random.Random(1), ctx.workdir)
+            exec_history(q, rp["history"])
+            for o in rp["history"]["ops"]:
+                print("  ", {k: v for k, v in o.items() if k not in ("spec", "case")},
+                      ("table #%d" % o["spec"]["token"]) if "spec" in o else "")
+            for v in q.violations[:5]:
+                print("  ", v["what"][:300])
+            return bool(q.violations)
         if "case" not in rp:
             print("no concrete input in this replay file:", json.dumps(rp)[:400])
             return True
         case = rp["case"]
-        lut = Lut(case["lut"], ctx.workdir)
+        lut = effective(Lut(case["lut"], ctx.workdir), case)
         info = prepare(lut, case)
         muts = []
         out = call_impl(lut, case, mutations=muts)
-        bad = compare_float(case, info, out)
+        bad = compare_float(case, info, out, lut)
         print("impl:", out if isinstance(out, str) else [float(v) for v in out[:10]])
         print("oracle:", info.get("expect", info.get("eta"))[:10]
               if info["route"] else info["eta"])
